@@ -25,3 +25,20 @@ def pmap(fn, items, procs=None, chunk=64):
         for part in pool.imap(_call, chunks):
             out.extend(part)
     return out
+
+
+def sample(items, k, seed=0):
+    """keep about 1/k of the items, chosen by a stable hash of their content
+    (TLC's output order is correlated with the values, so strided sampling
+    can silently drop a whole class of cases)"""
+    import hashlib
+    import json
+    if k <= 1:
+        return list(items)
+    out = []
+    for it in items:
+        h = hashlib.blake2b(json.dumps(it, sort_keys=True, default=str)
+                            .encode(), digest_size=4).digest()
+        if (int.from_bytes(h, "big") + seed) % k == 0:
+            out.append(it)
+    return out
